@@ -202,6 +202,10 @@ type MsgSpec struct {
 	Tamper []Tamper `json:"tamper,omitempty"`
 	Extra  []string `json:"extra,omitempty"` // extra form/query parameters "k=v"
 
+	// a storage fault aimed at the n-th storage call this request makes (1-based), whoever resumes it
+	FaultAt   int    `json:"faultAt,omitempty"`
+	FaultKind string `json:"faultKind,omitempty"`
+
 	// transport faults
 	BodyFault   string `json:"bodyFault,omitempty"` // "", short, err, eof
 	BodyOff     int    `json:"bodyOff,omitempty"`
